@@ -584,6 +584,9 @@ def contract_lines(ctx, tasks, results):
                 continue
             if 'monitor_error' in c:
                 raise ToolFailure('kernel monitor failed: %r' % c)
+            # name the recorded arguments with the parameter list of the current source
+            c['args'] = dict(zip(k.get('params', []), c.get('pos', [])))
+            c['args'].update(c.get('kw', {}))
             enc = encode_inputs(k, c['args'])
             if enc is None:
                 continue
@@ -596,9 +599,19 @@ def contract_lines(ctx, tasks, results):
     answers = ctx.lean(lines) if lines else []
     # self-test of the translation: the IR interpreter, run on the recorded arguments under a few pseudo-random
     # oracles, must not read an unassigned variable and (theorem kinds_sound) must not leave an array at a kinded site
-    sample = [ln for ln in lines if ln.split(' ')[1] in ('vote_update', 'optimize_core', 'optimize_refine_core',
-                                                          'diffusion', 'weisfeiler_lehman_coloring')][:80]
-    exec_lines = ['c17.exec ' + ln[len('c17.sat '):] + ' 3000 %d' % (k % 5) for k, ln in enumerate(sample)]
+    complete = set()
+    for (t, c), ln in zip(meta, lines):
+        k = desc[c['kernel']]
+        if all('int' in c['args'].get(p, {}) for p in k.get('int_params', [])):
+            complete.add(ln)
+    per = {}
+    sample = []
+    for ln in lines:
+        kn = ln.split(' ')[1]
+        if ln in complete and kn != 'push_pagerank' and per.get(kn, 0) < 3:
+            per[kn] = per.get(kn, 0) + 1
+            sample.append(ln)
+    exec_lines = ['c17.exec ' + ln[len('c17.sat '):] + ' 25 %d' % (k % 5) for k, ln in enumerate(sample)]
     for ln, ans in zip(exec_lines, ctx.lean(exec_lines) if exec_lines else []):
         ctx.count('ir_exec:' + ans.split(' ')[0])
         if ans.startswith('uninit') or ans == 'bad-args':
